@@ -130,8 +130,16 @@ def search(ck, tier, seed):
              ("ConditionalDiagonalNormal(scalar event)", normal.ConditionalDiagonalNormal([]), [], 2),
              ("ConditionalDiagonalNormal(one feature)", normal.ConditionalDiagonalNormal([1]), [1], 2),
              ("Flow", Flow(MaskedAffineAutoregressiveTransform(3, 8, context_features=2), normal.StandardNormal([3])), [3], 2)]
+    from nflows.transforms import normalization as nm13_, base as b13_, standard as st13_
+    dists.append(("Flow(mixed modes: training flow, frozen BatchNorm / ActNorm)",
+                  Flow(b13_.CompositeTransform([st13_.PointwiseAffineTransform(0.1, 1.2), nm13_.BatchNorm(3), nm13_.ActNorm(3)]), normal.StandardNormal([3])), [3], None))
     for name, d, ev, cf in dists:
         d.eval()
+        if "mixed modes" in name:
+            d.train()
+            for m_ in d.modules():
+                if isinstance(m_, (nm13_.BatchNorm, nm13_.ActNorm)):
+                    m_.eval()
         g = tgen(seed, "c13d", name)
         x = torch.rand(4, *ev, generator=g)
         if "Bernoulli" in name:
@@ -147,6 +155,7 @@ def search(ck, tier, seed):
             ck.case(("c13-dist", name, call, n_, bs_), nontrivial=True)
             xb, cb = x.clone(), None if c is None else c.clone()
             sd0 = copy.deepcopy(d.state_dict())
+            modes0 = [m_.training for m_ in d.modules()]
             if call in ("log_prob", "transform_to_noise"):
                 r = attempt(getattr(d, call), x, c)
             elif call == "mean":
@@ -162,6 +171,12 @@ def search(ck, tier, seed):
                 ck.finding("side-effect:argument-modified:%s.%s" % (name, call), "%s.%s modified its arguments" % (name, call), case)
             if not state_equal(sd0, d.state_dict()):
                 ck.finding("side-effect:state-modified:eval:%s.%s" % (name, call), "%s.%s changed the state dict" % (name, call), case)
+            modes1 = [m_.training for m_ in d.modules()]
+            if modes1 != modes0:
+                ck.finding("side-effect:module-modes-changed:%s" % call,
+                           "%s.%s changed the training flags of its modules from %s to %s" % (name, call, modes0, modes1), case)
+                for m_, f_ in zip(d.modules(), modes0):
+                    m_.training = f_
 
 
 def run(tier, seed):
